@@ -108,7 +108,7 @@ def abstract_ufs(exprs):
         return None
     # normalise first: syntactically different but simplifier-equal argument terms must map to the
     # same fresh constant
-    exprs = [z3.simplify(e, som=True) for e in exprs]
+    exprs = [z3.simplify(e, som=True, som_blowup=100000) for e in exprs]
     apps = _uf_apps(exprs)
     out = list(exprs)
     for i, a in enumerate(apps):
@@ -191,14 +191,78 @@ def _robust_model(c, w, ob, t, timeout_ms=3000):
     return None
 
 
+def _ratfun(e, memo, budget):
+    """e as (numerator, denominator) without division nodes; None if the budget is exceeded.
+    Atoms (constants, variables, UF applications, ite ...) are kept as they are."""
+    k = e.get_id()
+    if k in memo:
+        return memo[k]
+    budget[0] -= 1
+    if budget[0] < 0:
+        return None
+    one = z3.RealVal(1)
+    r = None
+    if z3.is_app(e) and e.sort() == z3.RealSort():
+        kind = e.decl().kind()
+        ch = e.children()
+        if kind in (z3.Z3_OP_ADD, z3.Z3_OP_SUB) and ch:
+            parts = [_ratfun(x, memo, budget) for x in ch]
+            if any(p is None for p in parts):
+                return None
+            n, d = parts[0]
+            for (n2, d2) in parts[1:]:
+                if kind == z3.Z3_OP_SUB:
+                    n2 = -n2
+                if d.eq(d2):
+                    n = n + n2
+                else:
+                    n, d = n * d2 + n2 * d, d * d2
+            r = (n, d)
+        elif kind == z3.Z3_OP_UMINUS:
+            p = _ratfun(ch[0], memo, budget)
+            if p is None:
+                return None
+            r = (-p[0], p[1])
+        elif kind == z3.Z3_OP_MUL:
+            n, d = one, one
+            for x in ch:
+                p = _ratfun(x, memo, budget)
+                if p is None:
+                    return None
+                n, d = n * p[0], (d if p[1].eq(one) else (p[1] if d.eq(one) else d * p[1]))
+            r = (n, d)
+        elif kind == z3.Z3_OP_DIV:
+            a, b = _ratfun(ch[0], memo, budget), _ratfun(ch[1], memo, budget)
+            if a is None or b is None:
+                return None
+            r = (a[0] * b[1], a[1] * b[0])
+    if r is None:
+        r = (e, one)
+    memo[k] = r
+    return r
+
+
+def ratfun_identity(lhs, rhs):
+    """lhs == rhs as an identity of rational functions over the atoms (valid wherever the denominators are
+    non-zero, which every path assumes for the divisions flodym performed): numerator of lhs - rhs is the zero polynomial"""
+    try:
+        p = _ratfun(lhs - rhs, {}, [4000])
+        if p is None:
+            return False
+        n = z3.simplify(p[0], som=True, som_blowup=100000)
+        return z3.is_rational_value(n) and n.numerator_as_long() == 0
+    except Exception:
+        return False
+
+
 def prove_now(c, w, cond, timeout_ms=20000):
     """decide one obligation immediately under the current path (fresh solver)."""
     t = z3.simplify(cond.t)
     if z3.is_true(t):
         return True, None
     if isinstance(cond, EqBool):
-        d = z3.simplify(cond.lhs - cond.rhs, som=True)
-        if z3.is_rational_value(d) and d.numerator_as_long() == 0:
+        d = z3.simplify(cond.lhs - cond.rhs, som=True, som_blowup=100000)
+        if (z3.is_rational_value(d) and d.numerator_as_long() == 0) or ratfun_identity(cond.lhs, cond.rhs):
             return True, None
     s = _fresh_solver(c, timeout_ms)
     s.add(z3.Not(t))
@@ -305,8 +369,8 @@ def discharge(c, w, timeout_ms, cc_every=0):
             continue
         if isinstance(ob.cond, EqBool) and not os.environ.get("SVX_NO_SOM"):
             # polynomial identities: z3's sum-of-monomials normal form decides them outright
-            d = z3.simplify(ob.cond.lhs - ob.cond.rhs, som=True)
-            if z3.is_rational_value(d) and d.numerator_as_long() == 0:
+            d = z3.simplify(ob.cond.lhs - ob.cond.rhs, som=True, som_blowup=100000)
+            if (z3.is_rational_value(d) and d.numerator_as_long() == 0) or ratfun_identity(ob.cond.lhs, ob.cond.rhs):
                 pr.by_som += 1
                 if ob.chain:
                     lemmas.append(t)
